@@ -259,7 +259,7 @@ class Gen:
         e = lambda ty: self.expr(ty, sc, d - 1)
         self.features.add("extra-prims")
         if t == "int":
-            k = r.randrange(12)
+            k = r.randrange(13)
             if k == 0:      # pairs
                 return [S(r.choice(["car", "cdr"])), [S("cons"), e("int"), e("int")]]
             if k == 1:      # guarded hash lookup
@@ -296,6 +296,20 @@ class Gen:
                 return [S("let"), [[v, e("int")]], [S(r.choice(["when", "unless"])), self.test(sc2, d - 1), [S("set!"), v, [S("+"), v, 1]]], v]
             if k == 10:
                 return [S("hashset-length"), [S("hashset-insert"), [S("hashset"), e("int"), e("int")], e("int")]]
+            if k == 11:
+                # or / and in value position whose operands have effects: each operand is evaluated at most once, left to
+                # right, and evaluation stops at the first true (false) one
+                self.features.add("effectful-or-and")
+                cnt, res = self.fresh("cnt"), self.fresh("r")
+                sc2 = Scope(sc)
+                sc2.add(cnt, "int")
+                bump = lambda by, val: [S("begin"), [S("set!"), cnt, [S("+"), cnt, by]], val]
+                form = S(r.choice(["or", "or", "and"]))
+                ops = [bump(1, [S("if"), self.test(sc, d - 1), cnt, False]), bump(10, [S("if"), self.test(sc, d - 1), cnt, False])]
+                if self.p(0.5):
+                    ops.append(bump(100, cnt))
+                return [S("let"), [[cnt, r.randint(0, 5)]],
+                        [S("let"), [[res, [form] + ops]], [S("+"), [S("*"), 1000, [S("if"), res, res, -1]], cnt]]]
             return [S("length"), [S("list-tail"), [S("cons"), e("int"), e("list")], 1]]
         if t == "bool":
             k = r.randrange(7)
